@@ -118,11 +118,30 @@ pub fn ord_lines(rng: &mut Rng, idx: u64, maxvars: usize) -> Vec<String> {
                 let o = VarOrder::new(&elim.iter().map(|&x| VarLabel::new_usize(x)).collect::<Vec<_>>());
                 let dt = DTree::from_cnf(&cnf, &o);
                 let vt = VTree::from_dtree(&dt);
+                // the manager of the derived vtree (its labels are sparse when the CNF has unused
+                // variable indices): variable count and the index of every leaf
+                let mgr = vt.as_ref().map(|t| {
+                    let m = VTreeManager::new(t.clone());
+                    let mut ls: Vec<usize> = Vec::new();
+                    fn leaves(t: &VTree, out: &mut Vec<usize>) {
+                        match t {
+                            rsdd::util::btree::BTree::Leaf(v) => out.push(v.value_usize()),
+                            rsdd::util::btree::BTree::Node((), l, r) => {
+                                leaves(l, out);
+                                leaves(r, out);
+                            }
+                        }
+                    }
+                    leaves(t, &mut ls);
+                    let idx: Vec<String> = ls.iter().map(|v| format!("{}:{}", v, m.var_index(VarLabel::new_usize(*v)).value())).collect();
+                    format!("{};{}", m.num_vars(), idx.join(","))
+                });
                 format!(
-                    "dt={} vt={} width={}",
+                    "dt={} vt={} width={} mgr={}",
                     print_dtree(&dt),
                     vt.as_ref().map(print_vtree).unwrap_or_else(|| "none".to_string()),
-                    dt.cutwidth()
+                    dt.cutwidth(),
+                    mgr.unwrap_or_else(|| "none".to_string())
                 )
             });
             out.push(format!("{} => {}", head, r.unwrap_or_else(|e| e)));
